@@ -444,10 +444,10 @@ def family_calls(rng, tier):
     # all conditionals over atoms for a reduced atom set, then seeded depth-2/3 trees
     small = [E('atom', t) for t in ['x', 'y', 'a', '1']]
     bodies += [E('c', p, q, r) for p in small for q in small for r in small]
-    n_rand = 700 if tier == "quick" else 12000
+    n_rand = 700 if tier == "quick" else (2500 if tier == "escalate" else 12000)
     for _ in range(n_rand):
         bodies.append(rand_expr(rng, rng.choice([2, 2, 3])))
-    per_body = 2 if tier == "quick" else 6
+    per_body = 2 if tier == "quick" else (3 if tier == "escalate" else 6)
     for e in bodies:
         ps = sorted(e.params())
         ar = len(ps)
@@ -515,6 +515,77 @@ SCOPE = [
     # a local of the caller is visible to the callee (dynamic scope) but a parameter of the callee hides it
     (['f::{x}', 'g::{[t];t::x;f(t+1)}', 'g(4)'], (2, 5)),
 ]
+
+
+# FIXED corpus: the witness of every repaired C03 defect, with the value the property prescribes; runs first in every tier
+FIXED = [
+    # a4df9a2 projection fill order
+    (['f::{x,y,z}', 'g::f(1;;)', 'h::g(;2)', 'h(3)'], 3, '(ok (a (i 1) (i 3) (i 2)))'),
+    (['f::{x,y,z}', 'g::f(;;)', 'h::g(1;;3)', 'h(2)'], 3, '(ok (a (i 1) (i 2) (i 3)))'),
+    # b482ce5 projection holding a list argument
+    (['f::{x,y,z}', 'g::f(;[4 5];)', 'g(1;2)'], 2, '(ok (a (i 1) (i 4) (i 5) (i 2)))'),
+    # 4692626 a conditional is not a local declaration
+    (['a::0', 'b::5', 'c::1', '{:[:[a;b;c];1;2]}()'], 3, '(ok (i 1))'),
+    (['{:[:[[3 4 5];x;y];1;2]}(0;0)'], 0, '(ok (i 2))'),
+    (['{:[:[[3 4 5];x;y];1;2]}(7;0)'], 0, '(ok (i 1))'),
+    # dc700d6 recursion through .f has its own declared locals
+    (['{[t];t::x;:[x=0;0;t+.f(x-1)]}(3)'], 0, '(ok (i 6))'),
+    (['{[a];a::x;:[x>0;.f(x-1);0];a}(3)'], 0, '(ok (i 3))'),
+    # 9f7189e a monad applied to a conditional applies to the value of the selected branch
+    (['-:[1;5;6]'], 0, '(ok (i -5))'),
+    (['-:[0;5;6]'], 0, '(ok (i -6))'),
+    (['-(:[0;5;6])'], 0, '(ok (i -6))'),
+    (['#:[0;"abc";"de"]'], 0, '(ok (i 2))'),
+    (['#(:[1;"abc";"de"])'], 0, '(ok (i 3))'),
+    (['~:[1;0;5]'], 0, '(ok (i 1))'),
+    (['*:[0;[7 8];[9 8]]'], 0, '(ok (i 9))'),
+    (['|:[1;[1 2];[3 4]]'], 0, '(ok (a (i 2) (i 1)))'),
+    (['{-:[x;y;z]}(1;2;3)', '{-:[x;y;z]}(0;2;3)'], 1, '(ok (i -3))'),
+    (['{-:[x;y;z]}(1;2;3)'], 0, '(ok (i -2))'),
+    (['f::{#:[x;y;z]}', 'f(0;"ab";"cde")', 'f(1;"ab";"cde")'], 2, '(ok (i 2))'),
+    (['f::{#:[x;y;z]}', 'f(0;"ab";"cde")'], 1, '(ok (i 3))'),
+    (['m::0', '-:[1;m::5;m::6]', 'm'], 2, '(ok (i 5))'),
+    (['x::3', '-:[x;5;6]'], 1, '(ok (i -5))'),
+    # a1b9850 arity counts parameters under monads
+    (['{x(3)}({-x})'], 0, '(ok (i -3))'),
+    (['g::{x(4)}', 'g({#x})'], 1, '(ok (i 4))'),
+]
+
+
+def family_fixed(rng, tier):
+    for stmts, i, want in FIXED:
+        yield list(stmts), {"family": "fixed", "expect_sx": (i, want), "oracle_only": True}
+
+
+# a name that is at the same time a global and a local of an outer ACTIVE function, assigned without declaration in a callee
+# at depth 2 and 3: `::` takes the first scope that has the name, searching from the running function outwards
+SCOPE_NESTED = [
+    # (operands of a dyad are evaluated right to left, so the call is sequenced through a local t before the name is read)
+    (['a::1', 'g::{a::x;a}', 'f::{[a t];a::10;t::g(x);t,a}', 'f(5)', 'a'], 3, '(ok (a (i 5) (i 5)))'),
+    (['a::1', 'g::{a::x;a}', 'f::{[a t];a::10;t::g(x);t,a}', 'f(5)', 'a'], 4, '(ok (i 1))'),
+    (['a::1', 'g::{a::x;a}', 'f::{[a];a::10;g(x)}', 'f(7)', 'a'], 3, '(ok (i 7))'),
+    (['a::1', 'g::{a::x;a}', 'f::{[a];a::10;g(x)}', 'f(7)', 'a'], 4, '(ok (i 1))'),
+    (['a::1', 'g::{a::x;a}', 'f::{[a];a::10;g(x)}', 'f2::{[a t];a::20;t::f(x);t,a}', 'f2(8)', 'a'], 4, '(ok (a (i 8) (i 20)))'),
+    (['a::1', 'g::{a::x;a}', 'f::{[a];a::10;g(x)}', 'f2::{[a t];a::20;t::f(x);t,a}', 'f2(8)', 'a'], 5, '(ok (i 1))'),
+    (['a::1', 'h::{a::x;a}', 'g::{[t];t::h(x);t,a}', 'f::{[a t];a::10;t::g(x);t,a}', 'f(5)', 'a'], 4, '(ok (a (i 5) (i 5) (i 5)))'),
+    (['a::1', 'h::{a::x;a}', 'g::{[t];t::h(x);t,a}', 'f::{[a t];a::10;t::g(x);t,a}', 'f(5)', 'a'], 5, '(ok (i 1))'),
+    (['a::1', 'h::{a::x;a}', 'g::{[b t];b::0;t::h(x);t,a}', 'f::{[t];t::g(x);t,a}', 'f(5)', 'a'], 4, '(ok (a (i 5) (i 5) (i 5)))'),
+    (['a::1', 'h::{a::x;a}', 'g::{[b t];b::0;t::h(x);t,a}', 'f::{[t];t::g(x);t,a}', 'f(5)', 'a'], 5, '(ok (i 5))'),
+    (['a::1', 'g::{a::x;a}', 'w::{[b t];b::10;t::g(x);t,a}', 'w(6)', 'a'], 3, '(ok (a (i 6) (i 6)))'),
+    (['a::1', 'g::{a::x;a}', 'w::{[b t];b::10;t::g(x);t,a}', 'w(6)', 'a'], 4, '(ok (i 6))'),
+    (['a::1', 'g::{[a];a::x;a}', 'f::{[a t];a::10;t::g(x);t,a}', 'f(5)', 'a'], 3, '(ok (a (i 5) (i 10)))'),
+    (['a::1', 'w::{a::x;a=x}', '{[a];a::10;w(x)}(9)'], 2, '(ok (i 1))'),
+    (['a::1', 'g::{a::x;a}', "{[a];a::10;g'x}([1 2 3])", 'a'], 2, '(ok (a (i 1) (i 2) (i 3)))'),
+    (['a::1', 'g::{a::x;a}', "{[a];a::10;g'x}([1 2 3])", 'a'], 3, '(ok (i 1))'),
+    (['a::1', 'g::{a::x;a}', '{[a];a::10;g@x}(4)', 'a'], 2, '(ok (i 4))'),
+    (['a::1', 'g::{a::x;a}', '{[a t];a::10;t::g@x;t,a}(4)'], 2, '(ok (a (i 4) (i 4)))'),
+    (['g::{a::x;a}', 'f::{[a t];a::10;t::g(x);t,a}', 'f(5)', 'a'], 2, '(ok (a (i 5) (i 5)))'),
+]
+
+
+def family_scope_nested(rng, tier):
+    for stmts, i, want in SCOPE_NESTED:
+        yield list(stmts), {"family": "scope", "expect_sx": (i, want), "oracle_only": True}
 
 
 SCOPE_FORMS = [
@@ -705,9 +776,9 @@ def family_faults(rng, tier):
                 for fault in FAULTS:
                     for fs in itertools.product(forms, repeat=d - 1):
                         combos.append((d, level, slot, fault, fs))
-    if tier == "quick":
+    if tier in ("quick", "escalate"):
         rng.shuffle(combos)
-        combos = combos[:330]
+        combos = combos[:330 if tier == "quick" else 700]
     for d, level, slot, fault, fs in combos:
         defs = []
         for k in range(d, 0, -1):
@@ -797,7 +868,7 @@ def merge_inputs(rng, tier):
     def lists(n):
         for bits in itertools.product([0, 1], repeat=n):
             yield bits
-    maxlen = 3 if tier == "quick" else 4
+    maxlen = 4 if tier == "thorough" else 3
     bases = [b for n in range(1, maxlen + 1) for b in lists(n)]
     fills = [f for n in range(1, 4) for f in lists(n)]
     def mk(bits):
@@ -805,9 +876,9 @@ def merge_inputs(rng, tier):
     for b in bases:
         for k in range(0, 4):
             combos = list(itertools.product(fills, repeat=k))
-            if k == 3 and tier == "quick":
+            if k == 3 and tier != "thorough":
                 rng.shuffle(combos)
-                combos = combos[:60]
+                combos = combos[:60 if tier == "quick" else 400]
             for fs in combos:
                 ctr = itertools.count(10)
                 out.append([mk(b)] + [mk(f) for f in fs])
@@ -997,7 +1068,7 @@ def check_programs(chk, rng, fams):
     return bad_props, bad_corrs
 
 
-FAMILIES = [family_calls, family_rec, family_proj, family_faults, family_cond, family_scope, family_scope_forms, family_warm, family_adverb, family_misc, family_ops]
+FAMILIES = [family_fixed, family_scope_nested, family_calls, family_rec, family_proj, family_faults, family_cond, family_scope, family_scope_forms, family_warm, family_adverb, family_misc, family_ops]
 
 
 def run(tier, replay=None):
@@ -1019,10 +1090,11 @@ def run(tier, replay=None):
         bad_corrs.insert(0, bc_m)
     if (bad_corrs or not proof["ok"]) and not bad_props and tier == "quick":
         # something no longer checks: look harder for a failing input of the property itself
+        # (hard budget: the quick tier stays under ~4 min in total, so the wider sweep is a bounded "escalate" tier)
         rng2 = random.Random(chk.seed + 1)
-        chk.tier = "thorough"
+        chk.tier = "escalate"
         try:
-            bp2, _ = check_programs(chk, rng2, [family_calls, family_proj, family_faults, family_cond, family_rec, family_scope, family_scope_forms, family_warm, family_adverb])
+            bp2, _ = check_programs(chk, rng2, [family_calls, family_proj, family_faults, family_cond, family_rec, family_scope, family_scope_forms, family_scope_nested, family_fixed, family_warm, family_adverb])
             bpm2, _ = check_merge(chk, rng2)
         finally:
             chk.tier = tier
